@@ -17,7 +17,7 @@ Proof.
   assert (PF : persist_fires E w t = false).
   { unfold persist_fires. rewrite (any_changed_false E w t HM). apply andb_false_r. }
   assert (V : verdict c E w t = inr false).
-  { unfold verdict. rewrite F. apply check_loop_false. exact HM. }
+  { unfold verdict. rewrite (preds_exist_of_match E w t HM), F. apply check_loop_false. exact HM. }
   pose proof (run_task_spec body c E dyn desel w t f) as SP.
   remember (run_task body c E dyn desel w t f) as r eqn:Er. clear Er.
   destruct SP; simpl; auto; congruence.
